@@ -363,6 +363,13 @@ def r05_2(prog, out):
             s = sl.of_resolved(bid, t.args[1])      # the list arrives as a field of a value built by the caller
         key = "apply:%s" % prog.short(bid)
         elem = set(find_seconds_parser(prog))
+        via_queue = False
+        if not any(p in s.calls for p in parser):
+            from slicing import through_channels
+            s2 = through_channels(prog, sl, bid, s)     # parsed by a reader, queued, applied by a worker task
+            if s2 is not None:
+                s = s2
+                via_queue = True
         per_element = bool(elem & s.calls) and "crate::api::parser::parse_ack_id" in s.calls
         if any(p in s.calls for p in parser) or per_element:
             n += 1
@@ -371,7 +378,9 @@ def r05_2(prog, out):
             # (when the parser runs in an enclosing body, e.g. before a spawned task, the value itself is the witness)
             from common import skipped_only_when_empty
             sk = skipped_only_when_empty(prog, bi, bb, t.args[1])
-            if sk is not None:
+            if sk is not None and via_queue:
+                out.undecided(key + ":applied", bi.loc(sk[0]), "deadline modifications are applied by a worker fed through a queue: " + sk[1])
+            elif sk is not None:
                 out.violation(key + ":applied", bi.loc(sk[0]), "deadline modifications: " + sk[1])
             if not pcalls or all(bi.cfg.dominates(p, bb) for p in pcalls):
                 out.holds(key, bi.loc(bb), "modifications applied are exactly the batch parser's Ok value")
